@@ -13,9 +13,9 @@
      mon[s].rd / mon[s].wr   poll_close_read / poll_close returned Ok (local close completed)
    Canary constants (each breaks one guard):
      BarrierBug   read_barrier lets ReadClosed through
-     ResetLoose   a FIN consumed after a RESET clears the reset marker (reset not sticky)
-     LoseFlagInClosing   handle_inbound_flag ignores FIN while ClosingWrite and STOP_SENDING while
-                  ClosingRead (the code before the C56 repair): the half stays "open" forever          *)
+     ResetLoose   the close barriers answer BrokenPipe instead of ConnectionReset after a reset
+     LoseFlagInClosing   handle_inbound_flag ignores FIN while ClosingWrite{read_closed: false} (the code
+                  before the C56 repair): the read half stays "open" forever                          *)
 EXTENDS Naturals, Sequences, FiniteSets, TLC
 CONSTANTS Streams, Paired, MaxOps, MaxWire, BarrierBug, ResetLoose, LoseFlagInClosing,
           LocalOps, EnvOps, Frames     \* the alphabet (subsets of the letters below) explored by this configuration
@@ -58,13 +58,11 @@ Init ==
 (* ---- State::handle_inbound_flag ------------------------------------------------------------------ *)
 OnFlag(x, f) ==
   IF f = "reset" THEN S("BothClosed", TRUE, "-")
-  ELSE IF ResetLoose /\ x.k = "BothClosed" /\ x.a /\ f = "fin" THEN S("BothClosed", FALSE, "-")
   ELSE IF f = "fin" /\ x.k = "Open" THEN S("ReadClosed", FALSE, "-")
   ELSE IF f = "fin" /\ x.k = "WriteClosed" THEN S("BothClosed", FALSE, "-")
   ELSE IF ~LoseFlagInClosing /\ f = "fin" /\ x.k = "ClosingWrite" /\ ~x.a THEN S("ClosingWrite", TRUE, x.b)
   ELSE IF f = "stop" /\ x.k = "Open" THEN S("WriteClosed", FALSE, "-")
   ELSE IF f = "stop" /\ x.k = "ReadClosed" THEN S("BothClosed", FALSE, "-")
-  ELSE IF ~LoseFlagInClosing /\ f = "stop" /\ x.k = "ClosingRead" /\ ~x.a THEN S("ClosingRead", TRUE, x.b)
   ELSE x
 ReadBarrier(x) == IF x.k \in {"Open", "WriteClosed"} \/ (x.k = "ClosingWrite" /\ ~x.a) \/ (BarrierBug /\ x.k = "ReadClosed") THEN "ok"
                   ELSE IF x.k = "BothClosed" /\ x.a THEN "ConnectionReset" ELSE "BrokenPipe"
@@ -180,7 +178,7 @@ CloseHalf(s, wr) ==
             /\ IF wr THEN notif' = [notif EXCEPT ![s] = FALSE] /\ bad' = (bad \/ ~notif[s])    \* .expect("to not close twice")
                ELSE UNCHANGED <<notif, bad>>
      ELSE /\ UNCHANGED <<st, obuf, wire, wrote, notif, mon, bad>>
-          /\ Done(s, op, IF x1.k = "BothClosed" /\ x1.a THEN "ConnectionReset"
+          /\ Done(s, op, IF x1.k = "BothClosed" /\ x1.a /\ ~ResetLoose THEN "ConnectionReset"
                          ELSE IF x1.k = other /\ ~x1.a THEN "Other" ELSE "BrokenPipe")
 
 (* ---- drop + DropListener ------------------------------------------------------------------------- *)
